@@ -1,4 +1,5 @@
 import Gengo.Model.Order
+import Gengo.Gen.Consts
 /-!
 Model of the source assembly in pkg/gengo/genfile.go `WriteToFile` / `writeImports` (what is
 handed to go/parser, before `ast.SortImports`, gofumpt and go/format).  The three literal
@@ -7,12 +8,21 @@ written out.
 -/
 namespace Gengo.Assemble
 
-def hdr1 : Str := "/*\nPackage ".toList
-def hdr2 : Str := " GENERATED BY gengo:".toList
-def hdr3 : Str := " \nDON'T EDIT THIS FILE\n*/\npackage ".toList
+/-- `Fprintf(format, pkgName, genName, pkgName)`: the pieces of the format between its `%s` verbs are
+    regenerated from the source (`Gengo.Gen.headerParts`); a format with another number of verbs makes
+    this `none` and every theorem about `header` fail to build. -/
+def headerOf (parts : List Str) (pkgName genName : Str) : Option Str :=
+  match parts with
+  | [h1, h2, h3, h4] => some (h1 ++ pkgName ++ h2 ++ genName ++ h3 ++ pkgName ++ h4)
+  | _ => none
+
+def hdr1 : Str := Gengo.Gen.headerParts.getD 0 []
+def hdr2 : Str := Gengo.Gen.headerParts.getD 1 []
+def hdr3 : Str := Gengo.Gen.headerParts.getD 2 []
+def hdr4 : Str := Gengo.Gen.headerParts.getD 3 []
 
 def header (pkgName genName : Str) : Str :=
-  hdr1 ++ pkgName ++ hdr2 ++ genName ++ hdr3 ++ pkgName ++ ['\n']
+  hdr1 ++ pkgName ++ hdr2 ++ genName ++ hdr3 ++ pkgName ++ hdr4
 
 def importLine (e : Str × Str) : Str := '\t' :: (e.2 ++ ' ' :: '"' :: (e.1 ++ ['"', '\n']))
 
